@@ -78,14 +78,21 @@ func normSeq(items []interface{}, keep bool) interface{} {
 }
 
 func headIsVar(n Node) bool {
-	switch x := n.(type) {
-	case *Var:
-		return true
-	case *Pred:
-		_, ok := x.X.(*Var)
-		return ok
+	// a path that starts with $, $$ or a variable is anchored - with any number of
+	// predicates stacked on that head, and under an order-by
+	for {
+		switch x := n.(type) {
+		case *Var:
+			return true
+		case *Pred:
+			n = x.X
+			continue
+		case *Sort:
+			n = x.X
+			continue
+		}
+		return false
 	}
-	return false
 }
 
 func evalPath(p *Path, ctx interface{}, env *Env) (interface{}, error) {
